@@ -649,6 +649,20 @@ def empty_hash_cases():
             sevm.sstore(ex, THIS, hb.HalmosBitVec(lit), hb.HalmosBitVec(v))
             got = val(sevm.sload(ex, THIS, hb.HalmosBitVec(K)))
             ctx.oblige("a load from the literal slot returns the value stored there", After(ex, got == v).f)
+            # literal slots a small offset away from keccak256('') (same 16-bit bucket of the reverse lookup)
+            for name, near in (("+1", K + 1), ("xor 0x40", K ^ 0x40)):
+                w = z3.BitVec(f"w_{name.split()[0].strip('+')}", 256)
+                try:
+                    interp.call(dec, [model, ex, z3.BitVecVal(near, 256)], {})
+                    sevm.sstore(ex, THIS, hb.HalmosBitVec(near), hb.HalmosBitVec(w))
+                    got2 = val(sevm.sload(ex, THIS, hb.HalmosBitVec(near)))
+                    ctx.oblige(f"literal slot keccak256('') {name}: decodable, and a load returns the value stored there", After(ex, got2 == w).f)
+                except BaseException as e:  # noqa
+                    from pyvc.interp import _ENGINE, PathEnd
+
+                    if isinstance(e, (PathEnd,) + tuple(_ENGINE)):
+                        raise
+                    ctx.oblige(f"literal slot keccak256('') {name}: decodable, and a load returns the value stored there", z3.BoolVal(False), info={"exc": f"{type(e).__name__}: {e}"[:200]})
 
         out.append(Case(f"{PROP}/sevm.Storage.decode#registered-empty-hash", layout, harness, replay=replay_empty_hash, sources=("halmos.sevm:SolidityStorage.decode", "halmos.sevm:GenericStorage.decode")))
     return out
@@ -661,15 +675,68 @@ def replay_empty_hash(r):
         ex = mk_ex(sevm)
         ex.sha3_data(b"")
         try:
+            for near in (K + 1, K ^ 0x40):
+                sevm.sstore(ex, THIS, hb.HalmosBitVec(near), hb.HalmosBitVec(9))
+                sevm.sload(ex, THIS, hb.HalmosBitVec(near))
             sevm.sstore(ex, THIS, hb.HalmosBitVec(K), hb.HalmosBitVec(7))
             got = val(sevm.sload(ex, THIS, hb.HalmosBitVec(K)))
         except Exception as e:  # noqa
-            return {"reproduced": True, "detail": f"{layout} layout: after keccak256('') was computed on the path, SSTORE at the literal slot 0xc5d2..a470 raises {type(e).__name__}: {e}", "inputs": "sha3 of empty data; sstore(0xc5d2460186f7233c927e7db2dcc703c0e500b653ca82273b7bfad8045d85a470, 7)"}
+            return {"reproduced": True, "detail": f"{layout} layout: after keccak256('') was computed on the path, a storage access at (or a small offset from) the literal slot 0xc5d2..a470 raises {type(e).__name__}: {e}", "inputs": "sha3 of empty data; sstore(0xc5d2460186f7233c927e7db2dcc703c0e500b653ca82273b7bfad8045d85a470, 7)"}
         s_ = z3.Solver()
         s_.add(pc_of(ex), got != 7)
         if s_.check() == z3.sat:
             return {"reproduced": True, "detail": f"{layout} layout: the load from the literal slot keccak256('') returns {got}, not the stored 7"}
     return {"reproduced": False, "detail": "store/load at the literal slot keccak256('') works in both layouts"}
+
+
+def transient_vs_symbolic_cases():
+    """a transient read must not constrain the persistent storage: with symbolic storage enabled the initial value of a
+    persistent mapping entry stays unconstrained whatever TLOADs happen (recorded known finding C08-F18)"""
+    out = []
+    for layout in ("solidity", "generic"):
+
+        def harness(interp, layout=layout):
+            ctx = interp.ctx
+            sevm = mk_sevm(storage_layout=layout)
+            ex = mk_ex(sevm)
+            ex.storage[THIS].symbolic = True
+            k = z3.BitVec("k", 256)
+            loc = hb.HalmosBitVec(ex.sha3_data(z3.Concat(k, z3.BitVecVal(1, 256))))
+            other = hb.HalmosBitVec(ex.sha3_data(z3.Concat(k, z3.BitVecVal(2, 256))))
+            n0 = len(ex.path.conditions)
+            interp.call(hs.SEVM.__dict__["sload"], [sevm, ex, THIS, loc], {"transient": True})
+            v = val(interp.call(hs.SEVM.__dict__["sload"], [sevm, ex, THIS, loc], {}))
+            new = list(ex.path.conditions)[n0:]
+            s_ = z3.Solver()
+            s_.add(*list(ex.path.conditions))
+            s_.add(v == 12345)
+            ctx.oblige("symbolic storage: after a TLOAD at the same slot and key, the persistent entry can still hold any initial value", z3.BoolVal(s_.check() == z3.sat), info={"value": str(v)[:100], "added": str(new)[:200]})
+            n1 = len(ex.path.conditions)
+            interp.call(hs.SEVM.__dict__["sload"], [sevm, ex, THIS, other], {"transient": True})
+            w = val(interp.call(hs.SEVM.__dict__["sload"], [sevm, ex, THIS, hb.HalmosBitVec(5)], {}))
+            s2 = z3.Solver()
+            s2.add(*list(ex.path.conditions))
+            s2.add(w == 777)
+            ctx.oblige("outside the known-finding region (the TLOAD does not touch the same slot/key shape as the persistent read): persistent initial values stay unconstrained", z3.BoolVal(s2.check() == z3.sat))
+
+        out.append(Case(f"{PROP}/sevm.Storage.load#transient-vs-symbolic", layout, harness, replay=replay_transient_symbolic, sources=("halmos.sevm:SolidityStorage.load", "halmos.sevm:GenericStorage.load", "halmos.sevm:SEVM.sload")))
+    return out
+
+
+def replay_transient_symbolic(r):
+    for layout in ("solidity", "generic"):
+        sevm = mk_sevm(storage_layout=layout)
+        ex = mk_ex(sevm)
+        ex.storage[THIS].symbolic = True
+        loc = hb.HalmosBitVec(ex.sha3_data(z3.Concat(z3.BitVecVal(7, 256), z3.BitVecVal(1, 256))))
+        sevm.sload(ex, THIS, loc, transient=True)
+        v = val(sevm.sload(ex, THIS, loc))
+        s_ = z3.Solver()
+        s_.add(*list(ex.path.conditions))
+        s_.add(v != 0)
+        if s_.check() == z3.unsat:
+            return {"reproduced": True, "detail": f"{layout} layout, symbolic storage enabled: tload(m[7]) followed by sload(m[7]) (mapping at slot 1): the path now implies that the persistent initial value {v} is 0 (the transient read's emptiness axiom is stated on the same `_00` array that is the persistent storage's unconstrained initial array)", "inputs": "symbolic storage; TLOAD(keccak(7 . 1)); SLOAD(keccak(7 . 1))"}
+    return {"reproduced": False, "detail": "a transient read leaves the persistent symbolic initial value unconstrained"}
 
 
 def select_cases_c08():
@@ -679,7 +746,7 @@ def select_cases_c08():
 
 
 def build_cases(tier="quick"):
-    return select_cases_c08() + solidity_cases() + generic_cases() + sevm_cases() + offsetmap_cases() + empty_hash_cases()
+    return select_cases_c08() + transient_vs_symbolic_cases() + solidity_cases() + generic_cases() + sevm_cases() + offsetmap_cases() + empty_hash_cases()
 
 
 def grounds():
